@@ -209,11 +209,22 @@ def long_chain(D, n_samples, steps, seed):
     return None
 
 
-def run_case(case, seed, steps, rng, inject=False):
+def run_case(case, seed, steps, rng, inject=False, two_phase=False):
     rows, D = case["rows"], case["D"]
     scr = screen_of(rows, rng)
     model = SC.SparseDrugCombo(experiment_space=ExperimentSpace.from_screen(scr), n_embedding_dimensions=D)
-    if rows:
+    if rows and two_phase and len(rows) >= 2:
+        # the data arrive in two instalments with a sweep in between (a running screen): afterwards the sampler is in a state
+        # of the FULL dataset, and every clause is about that dataset
+        k = 1 + seed % (len(rows) - 1)
+        first = np.zeros(len(rows), dtype=bool)
+        first[:k] = True
+        model.add_observations(scr.subset(first))
+        st, r = outcome(model.step)
+        if st != "ok":
+            return "step after the first instalment raised %s" % r
+        model.add_observations(scr.subset(~first))
+    elif rows:
         model.add_observations(scr)
     wm = model.wrapped_model
     y = np.asarray(wm.y, dtype=float)
@@ -317,7 +328,7 @@ def run(ctx):
         scripts = r.by_tag("gibbs")
         nbad = 0
         for i, case in enumerate(scripts):
-            msg = run_case(case, ctx.seed * 100 + i, 3 if ctx.quick else 8, rng, inject=(i % 3 == 2))
+            msg = run_case(case, ctx.seed * 100 + i, 3 if ctx.quick else 8, rng, inject=(i % 3 == 2), two_phase=(i % 4 == 1))
             ctx.evaluations += 1
             if msg:
                 what = "dataset %s, D=%d: %s" % ([(x["c"], x["d1"], x["d2"]) for x in case["rows"]], case["D"], msg)
